@@ -3,6 +3,7 @@ package harness
 import (
 	"context"
 	"encoding/json"
+	"errors"
 	"fmt"
 	"math"
 	"sort"
@@ -21,7 +22,7 @@ type c12Cell struct {
 	Strategy int     `json:"strategy"` // 0 MostExpired 1 LRU 2 LFU
 	Limit    int     `json:"limit"`
 	Frac     float64 `json:"frac"`
-	Needed   string  `json:"needed"` // nil | false | true
+	Needed   string  `json:"needed"`        // nil | false | true
 	Mem      string  `json:"mem,omitempty"` // memory soft limits that can never be exceeded: "" | heap | sys | both
 }
 
@@ -64,6 +65,12 @@ type c12Case struct {
 	Ties  bool  `json:"ties"`
 	Micro bool  `json:"micro,omitempty"` // operations are 1us apart instead of 1s
 }
+
+// history steps beyond the reads of key-000..key-003
+const (
+	c12ExpireAll = 4
+	c12Rewrite   = 5
+)
 
 type c12stats struct{ evict []float64 }
 
@@ -153,14 +160,50 @@ func c12One(cc c12Cell, cs c12Case) (string, string, string, int) {
 	}
 
 	for _, r := range cs.Reads {
-		if r >= cs.N {
+		switch {
+		case r == c12ExpireAll:
+			// expiry moves, serve history (count / last serve) must be carried over
+			now := vclock.NowQuiet().UnixNano()
+
+			b.ExpireAll(ctx)
+
+			for _, e := range model {
+				e.expiry = now
+			}
+
+			ops++
+
+			tick()
+
+			continue
+		case r == c12Rewrite:
+			// a new value under key-001 has not been served yet
+			if cs.N < 2 {
+				continue
+			}
+
+			k := "key-001"
+			ttl := 199 * time.Minute
+
+			if err := b.Write(cache.WithTTL(ctx, ttl, false), []byte(k), 1001); err != nil {
+				return "write", err.Error(), "", ops
+			}
+
+			model[k] = &c12Entry{key: k, expiry: vclock.NowQuiet().Add(ttl).UnixNano()}
+			ops++
+
+			tick()
+
+			continue
+		case r >= cs.N:
 			continue
 		}
 
 		k := fmt.Sprintf("key-%03d", r)
 		now := vclock.NowQuiet().UnixNano()
 
-		if _, err := b.Read(ctx, []byte(k)); err != nil {
+		// an expired entry is served too (as a stale value): it counts as use
+		if _, err := b.Read(ctx, []byte(k)); err != nil && !errors.Is(err, cache.ErrExpired) {
 			return "read", err.Error(), "", ops
 		}
 
@@ -325,6 +368,40 @@ func c12Cases(cc c12Cell, tier string) []c12Case {
 		}
 	}
 
+	// histories that also contain ExpireAll (serve history must survive it) and a re-write of a key (a new value has
+	// no serve history), on two sizes above the limit
+	if cc.Strategy != 0 {
+		var ext [][]int
+
+		cur := [][]int{{}}
+		for l := 0; l < 3; l++ {
+			var next [][]int
+
+			for _, h := range cur {
+				for k := 0; k < 6; k++ {
+					next = append(next, append(append([]int{}, h...), k))
+				}
+			}
+
+			cur = next
+
+			for _, h := range next {
+				for _, k := range h {
+					if k >= c12ExpireAll {
+						ext = append(ext, h)
+						break
+					}
+				}
+			}
+		}
+
+		for _, n := range []int{cc.Limit + 2, 3*cc.Limit + 7} {
+			for _, h := range ext {
+				cases = append(cases, c12Case{N: n, Reads: h}, c12Case{N: n, Reads: h, Micro: true})
+			}
+		}
+	}
+
 	return cases
 }
 
@@ -386,7 +463,7 @@ func init() {
 		ID: "C12", Title: "Eviction fires only on limit breach, removes the right amount in strategy order",
 		Cells: c12Cells, Run: c12Run,
 		Rule: "complete grid CountSoftLimit x EvictFraction {default,0.1,0.25,0.5,0.9,1} x strategy {MostExpired,LRU,LFU} x EvictionNeeded {nil,false,true} x 3 backends; " +
-			"per cell every size 0..L+6, 3L+7, 10L x every read history of length <=3 (quick) / <=4 (thorough) over 4 keys x {operations 1s apart, 1us apart, all at one instant (tied ranks)}; two cleanup cycles through the janitor's own invokeCleanup; " +
+			"per cell every size 0..L+6, 3L+7, 10L x every read history of length <=3 (quick) / <=4 (thorough) over 4 keys x {operations 1s apart, 1us apart, all at one instant (tied ranks)}; for LRU/LFU also every history of length <=3 over {4 reads, ExpireAll, re-write of a key} on two sizes above the limit; two cleanup cycles through the janitor's own invokeCleanup; " +
 			"oracle: no eviction without breach, amount within one entry of the documented target, removed ranks <= kept ranks, cache_evict equals the entries actually removed",
 		Assumptions: []string{
 			"HeapInUseSoftLimit / SysMemSoftLimit depend on runtime.ReadMemStats, which is not a seam the harness owns; the shared code path after the decision is exercised through EvictionNeeded, and cells with limits of 2^62 bytes (heap only, sys only, both) check that a configured but unexceeded memory limit never evicts",
